@@ -49,8 +49,35 @@ pub async fn yields(n: usize) {
 /// Run an async body inside a fresh ntex System; panics anywhere (driver,
 /// dispatcher task, spawned response task) unwind out of `block_on` and are
 /// returned as `Err(panic description)`.
+///
+/// Every System lives on an OS thread of its own: ntex keeps per-thread state
+/// (timer wheel and its driver task, the io registry) that outlives a System,
+/// so a second System on the same thread finds a timer wheel whose driver died
+/// with the first one (sleeps never fire) and everything those structures still
+/// reference is never freed (about 30 KB per simulated connection).  A thread
+/// per System gives each a clean slate and returns the memory when it ends.
 pub fn with_system<R: 'static>(fut: impl Future<Output = R> + 'static) -> Result<R, String> {
-    catch(move || ntex::rt::System::new("verif", ntex::rt::DefaultRuntime).block_on(fut))
+    /// the future has not been polled when it crosses the thread boundary and is
+    /// consumed entirely on the new thread; the result comes back by value after
+    /// the thread (and every thread-local `Rc` it created) has gone
+    struct Ferry<T>(T);
+    unsafe impl<T> Send for Ferry<T> {}
+    if std::env::var_os("VERIF_SAME_THREAD").is_some() {
+        return catch(move || ntex::rt::System::new("verif", ntex::rt::DefaultRuntime).block_on(fut));
+    }
+    let fut = Ferry(fut);
+    let handle = std::thread::Builder::new()
+        .name("verif-system".into())
+        .stack_size(16 << 20)
+        .spawn(move || {
+            let fut = fut;
+            Ferry(catch(move || ntex::rt::System::new("verif", ntex::rt::DefaultRuntime).block_on(fut.0)))
+        })
+        .expect("spawn system thread");
+    match handle.join() {
+        Ok(r) => r.0,
+        Err(_) => Err("panic (system thread died)".into()),
+    }
 }
 
 /// Poll a boxed future once with the driver's own waker.
